@@ -249,3 +249,20 @@ fn probe_failsafe_auth_prefix_of_unauth() {
         }
     }
 }
+
+/// enc_writer.renew_cipher/safety: the writer's chunk counter is the nonce counter; past u32::MAX it must fail, not wrap/panic
+/// (white-box: counter set directly; really reaching it needs 512 TiB of data)
+#[test]
+fn probe_writer_counter_overflow_no_panic() {
+    let mut w = Box::new(
+        EncryptionLayerWriter::new(
+            Box::new(RawLayerWriter::new(Vec::new())),
+            &EncryptionConfig { ecc_keys: Vec::new(), key: PKEY, nonce: PNONCE },
+        )
+        .unwrap(),
+    );
+    w.write_all(&pdata(C)).unwrap();
+    w.current_ctr = u32::MAX;
+    let r = w.write(&[1, 2, 3]);
+    assert!(r.is_err(), "writing past the last nonce counter value must be refused");
+}
